@@ -94,6 +94,7 @@ type FuncContract struct {
 	Modifies    []ModTarget
 	Pure        bool
 	Functional  bool
+	ForeignFuncs bool // function-typed results only touch foreign state when called
 	Trusted     bool
 	Extern      bool
 	InlineOnly  bool
@@ -498,7 +499,7 @@ func (p *parser) parsePrimary() Expr {
 
 var clauseKeywords = map[string]bool{
 	"func": true, "extern": true, "ensures_trusted": true, "props": true, "requires": true, "ensures": true, "modifies": true,
-	"pure": true, "functional": true, "trusted": true, "loop": true, "call": true, "allowpanic": true, "mapaccess": true, "at": true, "forbid": true, "allocbound": true, "set": true,
+	"pure": true, "functional": true, "foreignfuncs": true, "trusted": true, "loop": true, "call": true, "allowpanic": true, "mapaccess": true, "at": true, "forbid": true, "allocbound": true, "set": true,
 	"pred": true, "fn": true, "axiom": true, "lemma": true, "ghost": true, "abstract": true,
 	"mode": true, "inline": true, "nosafety": true, "replay": true, "const": true, "package": true,
 }
@@ -606,6 +607,8 @@ func parseSpecFile(path string) (*SpecFile, error) {
 		case "functional":
 			cur.Pure = true
 			cur.Functional = true
+		case "foreignfuncs":
+			cur.ForeignFuncs = true
 		case "trusted":
 			cur.Trusted = true
 		case "inline":
